@@ -400,6 +400,43 @@ pub fn run(ctx: &mut Ctx, rng: &mut Rng, _thorough: bool) {
             }
         }
     }
+    // coincident switch points that meet through the ALTERNATE reference on both sides only:
+    // A: next = B, next_alt = C;  C: prev = D, prev_alt = A;  B and D have one neighbour each
+    {
+        let mut o3 = o.clone();
+        o3.gaps = (4, 4);
+        o3.p_double = 0.0;
+        o3.p_double_ends = 0.0;
+        o3.flips = false;
+        o3.shuffle_idx = false;
+        o3.p_lockout = 0.0;
+        let g3 = gn::network(rng, &o3);
+        if g3.links.len() == 5 && gn::validate(&g3.links).is_ok() {
+            let mut l = g3.links.clone();
+            let li = |i: u32| altrios_core::track::LinkIdx::new(i);
+            // chain 1 -> 2 -> 3 -> 4 becomes the scissors 1 -> 2, 1 -> 4 (alt), 3 -> 4
+            l[1].idx_next = li(2);
+            l[1].idx_next_alt = li(4);
+            l[2].idx_prev = li(1);
+            l[2].idx_prev_alt = li(0);
+            l[2].idx_next = li(0);
+            l[2].idx_next_alt = li(0);
+            l[3].idx_prev = li(0);
+            l[3].idx_prev_alt = li(0);
+            l[3].idx_next = li(4);
+            l[3].idx_next_alt = li(0);
+            l[4].idx_prev = li(3);
+            l[4].idx_prev_alt = li(1);
+            ctx.count("obs.fault.coincident_switch_points_through_alternate_references");
+            ctx.count("obs.faults_injected");
+            ctx.rep.evaluations += 1;
+            match panics::guard(AssertUnwindSafe(|| gn::validate(&l))) {
+                Ok(Ok(())) => ctx.violate("fault_rejected", "C16:fault_accepted:coincident_switch_points_through_alternate_references", "network whose two switches meet through the alternate references on both sides was accepted".into(), json!({})),
+                Ok(Err(_)) => ctx.count("obs.faults_rejected_with_error_value"),
+                Err(p) => ctx.violate("no_abort", "C16:panic:coincident_switch_points_through_alternate_references", format!("panic: {} at {}", p.message, p.location), json!({})),
+            }
+        }
+    }
     ctx.rep.nontrivial(net_sig(&links));
     ctx.rep.sample(json!({"valid_network_links": links.len() - 1, "single_fault_mutations": nfaults, "rules": rules_seen.iter().collect::<Vec<_>>(),
         "load_paths": ["[Link]::validate", "Network::from_json", "Network::from_yaml", "Network::from_file(.yaml)"]}));
